@@ -1007,3 +1007,56 @@ func (fe *FnExec) sendAsserts(fr *frame, st *State, site string, ch, v Val, pos 
 		fe.oblige(fr, fmt.Sprintf("call[%s].assert:%s", site, a.Label), a.Props, st.pc, g, pos, a.Src)
 	}
 }
+
+// errPropAtBackEdge: the loop member of the error-propagation family — a loop does not go on to its next iteration
+// after a call in this iteration reported an error (same opt-in rule: only members that hold when the expectation
+// list is written are expected).  Loops are cut at their heads, so an error swallowed inside a body would otherwise
+// never meet a return on the same path.
+func (fe *FnExec) errPropAtBackEdge(fr *frame, li *loopInfo, st *State) {
+	if fr != fe.top || fe.quiet || fr.inlined || (fr.con != nil && fr.con.Trusted) {
+		return
+	}
+	sig := fr.fn.Signature
+	n := sig.Results().Len()
+	errT := types.Universe.Lookup("error").Type()
+	if n == 0 || !types.Identical(sig.Results().At(n-1).Type(), errT) {
+		return
+	}
+	var sites []string
+	for site := range fr.callIdx {
+		sites = append(sites, site)
+	}
+	sort.Strings(sites)
+	for _, site := range sites {
+		call, ok := fr.callIdx[site].(*ssa.Call)
+		if !ok || !li.body[call.Block()] {
+			continue
+		}
+		pcCall, executed := fe.callPC[call]
+		if !executed {
+			continue
+		}
+		var ev Val
+		rt := call.Type()
+		if tup, isT := rt.(*types.Tuple); isT {
+			if tup.Len() == 0 || !types.Identical(tup.At(tup.Len()-1).Type(), errT) {
+				continue
+			}
+			tv, ok := fe.regs[call].(TupleV)
+			if !ok || len(tv.E) != tup.Len() {
+				continue
+			}
+			ev = tv.E[tup.Len()-1]
+		} else if types.Identical(rt, errT) {
+			ev = fe.regs[call]
+		} else {
+			continue
+		}
+		e, ok := ev.(RefV)
+		if !ok {
+			continue
+		}
+		fe.oblige(fr, fmt.Sprintf("errprop[%s]@%s", site, fe.loopName(li)), nil, tAnd(st.pc, pcCall), tEq(e.T, "0"), li.head.Instrs[0].Pos(),
+			"the loop does not go on to its next iteration after "+site+" reported an error")
+	}
+}
